@@ -527,6 +527,8 @@ func (r *rxRunner) runFail(id int, ps []wPkg, cuts []int, off int, kind string, 
 	switch kind {
 	case "eof", "eofdata":
 		ferr = io.EOF
+	case "resetdata":
+		ferr = failErr{"connection reset by peer"}
 	case "reset":
 		ferr = failErr{"connection reset by peer"}
 	default:
@@ -546,9 +548,9 @@ func (r *rxRunner) runFail(id int, ps []wPkg, cuts []int, off int, kind string, 
 	if pos < off {
 		r.mc.rq = append(r.mc.rq, readItem{data: append([]byte(nil), stream[pos:off]...)})
 	}
-	if kind == "eofdata" && len(r.mc.rq) > 0 {
-		// the transport reports the end of the stream together with the last bytes it delivers
-		r.mc.rq[len(r.mc.rq)-1].tail = io.EOF
+	if (kind == "eofdata" || kind == "resetdata") && len(r.mc.rq) > 0 {
+		// the transport reports the end of the stream / the failure together with the last bytes it delivers
+		r.mc.rq[len(r.mc.rq)-1].tail = ferr
 	}
 	r.mc.mu.Unlock()
 	r.mc.cond.Broadcast()
@@ -1391,12 +1393,12 @@ func rxMain(args []string) error {
 			cs = withEmpty(rng, cs, n)
 		}
 		total := n + 8*(len(cs)+1)
-		kinds := []string{"eof", "reset", "timeout", "eofdata"}
+		kinds := []string{"eof", "reset", "timeout", "eofdata", "resetdata"}
 		for off := 0; off <= total; off++ {
 			if *failStep > 1 && off%*failStep != i%*failStep && off != total {
 				continue
 			}
-			kind := kinds[(off+i)%4]
+			kind := kinds[(off+i)%5]
 			var chunks []int
 			if rng.Intn(2) == 0 {
 				left := off
